@@ -386,6 +386,9 @@ func (e *Explorer) concretizeRange(t *Term, lo, hi int64) uint64 {
 	}
 	n := int(hi - lo + 1)
 	if n > maxSplit {
+		if os.Getenv("VERIF_TRACE_PANIC") != "" {
+			fmt.Fprintf(os.Stderr, "SPLIT ABORT [%d,%d]\n%s", lo, hi, targetStack())
+		}
 		panic(pathAbort{"unsupported: symbolic integer needs a split over more than 300 values"})
 	}
 	if n <= 0 {
